@@ -71,6 +71,7 @@ M = [
  ("race-simple1-shared-counter", "priority/simple.go", "\t\t\tsmpl.opts.Handle(ctx, prioritized.Item)\n", "\t\t\tsmpl.opts.Handle(ctx, prioritized.Item)\n\t\t\tsmpl.opts.HandlersQuantity++\n\t\t\tsmpl.opts.HandlersQuantity--\n", ["C20"]),
  ("race-join1-unreleased-flag-read-in-stop", "join/join.go", "func (dsc *Discipline[Type]) Stop() {\n\tdsc.breaker.Break()", "func (dsc *Discipline[Type]) Stop() {\n\tif dsc.unreleased {\n\t\treturn\n\t}\n\tdsc.breaker.Break()", ["C20"]),
  ("race-limit-output-len-stat", "v2/limit/limit.go", "type Discipline[Type any] struct {\n\topts Opts[Type]\n", "type Discipline[Type any] struct {\n\topts Opts[Type]\n\tsent int\n", []),
+ ("simple2-handle-twice-when-backlogged", "v2/priority/simple/simple.go", "\t\tdsc.opts.Handle(prioritized.Item)\n", "\t\tif len(dsc.priority.Output()) > 0 {\n\t\t\tdsc.opts.Handle(prioritized.Item)\n\t\t}\n\t\tdsc.opts.Handle(prioritized.Item)\n", ["C02"]),
 ]
 
 def main():
